@@ -22,6 +22,46 @@ def _merge(*bs):
         out['thorough'] += b['thorough']
     return out
 
+def c04_extra(ROOT, tier, seed, sh, WORK):
+    """Differential validation of the translator on both builds + reference set semantics."""
+    import os, re, subprocess
+    out = {'violations': []}
+    n = 60 if tier == 'quick' else 400
+    d = os.path.join(WORK, 'c04')
+    os.makedirs(d, exist_ok=True)
+    sh("cd harness && go build -tags tiny -o harness_tiny .")
+    procs = []
+    total = 0
+    for mod, binary in (('Mask256', 'harness'), ('Mask64', 'harness_tiny')):
+        f = os.path.join(d, f"Cases{mod}.v")
+        p = sh(f"{ROOT}/harness/{binary} masks -seed {seed} -n {n} -module {mod} -out {f}")
+        lines = p.stdout.strip().splitlines()
+        total += int(lines[0])
+        ref = [l for l in lines if l.startswith('REFFAIL')]
+        if ref:
+            rp = os.path.join(ROOT, 'replays', f'C04-ref-{mod}.txt')
+            open(rp, 'w').write("implementation disagrees with set semantics (build %s):\n" % mod + "\n".join(ref) + "\n")
+            out['violations'].append({'replay': rp, 'cmd': 'masks', 'classes': ['ref'], 'chk': ref[0]})
+        procs.append((mod, f, subprocess.Popen(f"timeout 1500 coqc -Q theories Arche {f}", shell=True, cwd=os.path.join(ROOT, 'coq'),
+                                               stdout=subprocess.PIPE, stderr=subprocess.STDOUT, text=True)))
+    for mod, f, pr in procs:
+        o = pr.communicate()[0]
+        m = re.search(r'result = \((\d+)%nat,\s*\[(.*?)\]\)', o, re.S)
+        if not m:
+            rp = os.path.join(ROOT, 'replays', f'C04-translator-{mod}.txt')
+            open(rp, 'w').write("generated definitions could not be evaluated:\n" + o[-3000:])
+            out['violations'].append({'replay': rp, 'cmd': 'masks', 'classes': ['translator'], 'chk': 'generated file does not evaluate'})
+        elif m.group(2).strip():
+            rp = os.path.join(ROOT, 'replays', f'C04-translator-{mod}.txt')
+            open(rp, 'w').write("generated definition and Go function disagree on: " + m.group(2) + "\ncases file: " + f + "\n")
+            out['violations'].append({'replay': rp, 'cmd': 'masks', 'classes': ['translator'], 'chk': m.group(2)[:200]})
+    out['programs'] = 2
+    out['disagreements_checked'] = total
+    out['translator_cases'] = total
+    out['source_hashes'] = open(os.path.join(ROOT, 'coq/theories/Gen/hashes.txt')).read().split('\n')[:60]
+    return out
+
+
 PROPS = {
     'C01': {
         'budget': _merge(_p('core', 220, 4000), _p('mixed', 80, 2000)),
@@ -48,6 +88,15 @@ PROPS = {
         'own_ops': {'QSCAN', 'QUERY', 'QNEXT', 'QSTEP'},
         'rule': "every QSCAN checks on the implementation: Count = visited, EntityAt(i) = i-th visited, Step(k) twin vs Next, no duplicates, accessors vs world, out-of-range panics; the visited set and count are compared with the model",
         'proof_files': ['Proofs/Cursor.v'],
+    },
+    'C04': {
+        'budget': _merge(_p('query', 120, 2000), _p('mixed', 60, 1000)),
+        'projection': [(r'res:(QSCAN|MASK)', None), (r'view_mask', None)],
+        'chk': [r'REFFAIL|generated|Has\(|Mask'],
+        'own_ops': {'QSCAN'},
+        'extra': c04_extra,
+        'rule': "translator validation: every generated function evaluated by vm_compute on all single-bit masks, boundary pairs across all words, complements, seeded random masks x all IDs (both builds) against the Go function; Go functions against naive set semantics; plus filter-heavy histories against the model",
+        'trusted_base': TB_COMMON + ["translator (translator/*.go), Pure/MachInt.v (machine integers, popcount64 = bits.OnesCount64), go/types with the source importer"],
     },
     'C05': {
         'budget': _merge(_p('rel', 220, 4000), _p('cache', 80, 1000), _p('mixed', 60, 1000)),
@@ -118,7 +167,7 @@ PROPS = {
         'rule': "seeded histories (profile reset): several Reset cycles with registered (relation) filters, dead targets, retired tables before the reset; every observable after a reset is compared with the model, whose Reset is proved to give a fresh world's behaviour",
     },
     'C16': {
-        'budget': _merge(_p('registry', 60, 1500, "-maxlen 120"), _p('mixed', 60, 500)),
+        'budget': _merge(_p('registry', 160, 3000), _p('lock', 60, 500), _p('mixed', 40, 500)),
         'projection': [(r'res:REG', None), (r'panic_(missing|unexpected):REG', None),
                        (r'view_(mask|vals)', 'many_comps'), (r'panic_unexpected:.*', 'many_comps')],
         'chk': [r'Component'],
